@@ -606,6 +606,26 @@ func ruleR19b(c *Ctx) {
 					}
 				}
 				if !hasGate {
+					// the chain built by a helper that is given the switch: `mux.Use(rootMiddlewares(readOnly)...)`
+					for _, a := range args {
+						for _, r := range roots(a, nil) {
+							call, ok := r.(*ssa.Call)
+							if !ok {
+								continue
+							}
+							g := staticCallee(call)
+							if g == nil || len(g.Blocks) == 0 || !inRepo(fnPkgPath(origin(g))) {
+								continue
+							}
+							for i, ga := range call.Call.Args {
+								if strip(ga) == ssa.Value(roParam) && i < len(g.Params) && chainHasGateWhenSet(c, g, g.Params[i], ro) {
+									hasGate = true
+								}
+							}
+						}
+					}
+				}
+				if !hasGate {
 					return s
 				}
 				// Use installs the middleware on the router itself; With only on the router it RETURNS (a `mux.With(ReadOnly)`
@@ -706,4 +726,43 @@ func routerProvidersAreGated(c *Ctx) bool {
 		}
 	}
 	return true
+}
+
+// chainHasGateWhenSet: every returning path of g on which the boolean parameter p was not shown false stores the
+// gate function into the chain it builds (slice literal element or appended element).
+func chainHasGateWhenSet(c *Ctx, g *ssa.Function, p *ssa.Parameter, gate *ssa.Function) bool {
+	const (
+		pFalse uint64 = 1 << iota
+		has
+	)
+	ok, nRet := true, 0
+	c.RunPaths(g, 0, &PathRule{
+		Edge: func(pc *PathCtx, s uint64, from *ssa.BasicBlock, si int) (uint64, bool) {
+			for _, f := range pc.edgeFacts(from, si) {
+				if f.X == ssa.Value(p) {
+					if b, isC := constBool(f.Y); isC && (b == f.Eq) == false {
+						s |= pFalse
+					}
+				}
+			}
+			return s, true
+		},
+		Step: func(pc *PathCtx, s uint64, ins ssa.Instruction) uint64 {
+			if st, isStore := ins.(*ssa.Store); isStore {
+				if f := closureOf(strip(st.Val), 0); f == gate {
+					return s | has
+				}
+			}
+			return s
+		},
+		Exit: func(pc *PathCtx, s uint64, ins ssa.Instruction) {
+			if _, isRet := ins.(*ssa.Return); isRet {
+				nRet++
+				if s&(pFalse|has) == 0 {
+					ok = false
+				}
+			}
+		},
+	})
+	return ok && nRet > 0
 }
